@@ -33,7 +33,7 @@ def BOUNDS(tier):
 
 
 def REQUIRED_COVER(tier):
-    return {'uint:256', 'int:257', 'var_int:topbit', 'snake:multi', 'addr:anycast', 'addr:ext', 'seq:depth2', 'dict', 'string:utf8', 'snake:long'}
+    return {'uint:256', 'int:257', 'var_int:topbit', 'snake:multi', 'addr:anycast', 'addr:ext', 'addr:route', 'addr:history', 'seq:depth2', 'dict', 'string:utf8', 'snake:long'}
 
 
 HASH32 = 'ed1691307050047117b998b561d8de82d31fbf84910ced6eb5fc92e7485ef8a7'
@@ -226,6 +226,21 @@ def shard_addr(rec):
                     case_seq(rec, [['bit', 1], ['addr_std', wc, accs[3], [depth, pfx]], ['coins', 5]], 'addr_anycast')
                     rec.covered('addr:anycast')
                     rec.nontriv(('anycast', depth, pfx, wc))
+    # sixth session: Address objects through to_cell() / the copy constructor (with and without anycast), and address TEXTS whose first
+    # parsed object the caller edits afterwards (every use of the text still denotes the plain address)
+    n = 0
+    for wc in (-1, 0, 127):
+        for anycast in (None, [1, 1], [5, 19], [30, (1 << 30) - 1]):
+            for route in ('to_cell', 'to_cell_slice', 'copy', 'copy_to_cell'):
+                case_seq(rec, [['uint', 1, 1], ['addr_route', wc, accs[3], anycast, route], ['uint', 2, 2]], 'addr_route')
+                rec.covered('addr:route')
+        for friendly in (0, 1):
+            for edit in ('anycast', 'wc', 'hash', 'loaded-anycast'):
+                for k in range(2):
+                    n += 1
+                    acc = filler(seed, f'addr-hist-{n}', 32).hex()      # a text nobody has parsed before in this process
+                    case_seq(rec, [['addr_hist', wc, acc, friendly, [3, 5], edit], ['addr_hist', wc, acc, friendly, [3, 5], edit]], 'addr_hist')
+                    rec.covered('addr:history')
     # the same values handed over in their other accepted argument forms
     for v in (0, 1):
         for form in ('int', 'bool', 'str', 'tvm'):
